@@ -238,6 +238,13 @@ where
         ("acked_features", Box::new(|a: &A| a.acked_features(0x55))),
         ("set_event_idx", Box::new(|a: &A| a.set_event_idx(true))),
         ("reset_device", Box::new(|a: &A| a.reset_device())),
+        // the worker's own entry: a kick has already been consumed when it is made, so it must wait too
+        ("handle_event", Box::new(|a: &A| {
+            let _ = a.handle_event(0, EventSet::IN, &[], 0);
+        })),
+        ("get_shared_object", Box::new(|a: &A| {
+            let _ = a.get_shared_object(VhostUserSharedMsg { uuid: uuid::Uuid::from_bytes([7; 16]) });
+        })),
     ];
     for (method, call) in &calls {
         let before = log_len();
